@@ -1,7 +1,14 @@
 (** Correspondence cases of the `denom` scenario family: each constructor carries the inputs the
     implementation was run on and the outputs it returned; [check] re-computes them with the model. *)
-From IBC Require Import Lib.Bytes Lib.BytesFacts Lib.Dec Lib.CorrLib Lib.Sha256 Denom.Ident Denom.Denom Denom.Transfer.
+From IBC Require Import Lib.Bytes Lib.BytesFacts Lib.Dec Lib.CorrLib Lib.Sha256 Denom.Ident Denom.Denom Denom.Transfer Denom.Authz.
 Local Open Scope N_scope.
+
+Fixpoint list_eqb_het {A B} (f : A -> B -> bool) (a : list A) (b : list B) : bool :=
+  match a, b with
+  | [], [] => true
+  | x :: a', y :: b' => f x y && list_eqb_het f a' b'
+  | _, _ => false
+  end.
 
 Definition mk_trace (l : list (bytes * bytes)) : list Hop := map (fun pc => mkHop (fst pc) (snd pc)) l.
 
@@ -33,12 +40,50 @@ Inductive Case :=
 (* real MsgTransfer / relayed receive with the rate-limit middleware *)
 | RlFlowSend (port chan coin base : bytes) (trace : list (bytes * bytes)) (ok : bool) (bank : option bytes) (rl : bytes)
 | RlFlowRecv (sp sc dp dc pd : bytes) (ok : bool) (bank : option bytes) (rl : bytes)
-| RoundTrip (ca cb base : bytes) (funds amt back : Z) (obs : Trip).
+| RoundTrip (ca cb base : bytes) (funds amt back : Z) (obs : Trip)
+(* TransferAuthorization.ValidateBasic *)
+| AuthzValid (g : Grant) (ok panicked : bool)
+(* Accept sequences: per request (accepted?, stored grant afterwards as (port, channel, limit) list or None) *)
+| AuthzRun (g : Grant) (rs : list Req) (obs : list (bool * option (list (bytes * bytes * Coins))))
+(* MsgGrant + MsgExec transactions: requests with the granter's spendable balance before, observations with the
+   amount that left the granter's account *)
+| AuthzExec (g : Grant) (rs : list (Req * Z)) (obs : list (bool * option (list (bytes * bytes * Coins)) * Z)).
 
 Definition trip_eqb (a b : Trip) : bool :=
   bool_eqb (t_send1 a) (t_send1 b) && bool_eqb (t_recv1 a) (t_recv1 b) && bytes_eqb (t_voucher a) (t_voucher b) &&
   bool_eqb (t_send2 a) (t_send2 b) && bool_eqb (t_recv2 a) (t_recv2 b) &&
   (t_a_user a =? t_a_user b)%Z && (t_a_escrow a =? t_a_escrow b)%Z && (t_b_user a =? t_b_user b)%Z.
+
+Definition coins_obs_eqb (l obs : Coins) : bool :=
+  (length l =? length obs)%nat && forallb (fun dv => (amount_of l (fst dv) =? snd dv)%Z) obs.
+Definition alloc_obs_eqb (a : Alloc) (o : bytes * bytes * Coins) : bool :=
+  bytes_eqb (a_port a) (fst (fst o)) && bytes_eqb (a_chan a) (snd (fst o)) && coins_obs_eqb (a_limit a) (snd o).
+Definition state_obs_eqb (st : State) (o : option (list (bytes * bytes * Coins))) : bool :=
+  match st, o with
+  | None, None => true
+  | Some g, Some l => list_eqb_het alloc_obs_eqb g l
+  | _, _ => false
+  end.
+
+Fixpoint run_check (st : State) (rs : list Req) (obs : list (bool * option (list (bytes * bytes * Coins)))) : bool :=
+  match rs, obs with
+  | [], [] => true
+  | r :: rs', (ok, s) :: obs' =>
+      let '(st1, ok1) := step st r in
+      bool_eqb ok1 ok && state_obs_eqb st1 s && run_check st1 rs' obs'
+  | _, _ => false
+  end.
+
+Fixpoint exec_check (st : State) (rs : list (Req * Z)) (obs : list (bool * option (list (bytes * bytes * Coins)) * Z)) : bool :=
+  match rs, obs with
+  | [], [] => true
+  | (r, spendable) :: rs', (ok, s, moved) :: obs' =>
+      let '(st1, ok1) := step st r in
+      bool_eqb ok1 ok && state_obs_eqb st1 s &&
+      (moved =? (if ok1 then executed_amount r spendable else 0))%Z &&
+      exec_check st1 rs' obs'
+  | _, _ => false
+  end.
 
 Definition check (c : Case) : bool :=
   match c with
@@ -100,4 +145,7 @@ Definition check (c : Case) : bool :=
       bytes_eqb (rl_recv_denom sp sc dp dc pd) rl &&
       (if ok then opt_eqb bytes_eqb (recv_coin sp sc dp dc pd) bank else opt_eqb bytes_eqb None bank)
   | RoundTrip ca cb base funds amt back obs => trip_eqb (roundtrip ca cb base funds amt back) obs
+  | AuthzValid g ok panicked => negb panicked && bool_eqb (grant_validate g) ok
+  | AuthzRun g rs obs => grant_validate g && run_check (Some g) rs obs
+  | AuthzExec g rs obs => grant_validate g && exec_check (Some g) rs obs
   end.
